@@ -197,6 +197,68 @@ func ReduceLiteralFields(s string) string {
 	return s
 }
 
+// DropNilPhi rewrites every phi(...) whose alternatives are nil / zero values / self-references (cyc:…, the φ of a
+// loop that carries the value around unchanged) except one to that one.
+func DropNilPhi(s string) string {
+	for iter := 0; iter < 30; iter++ {
+		changed := false
+		from := 0
+		for {
+			i := strings.Index(s[from:], "phi(")
+			if i < 0 {
+				break
+			}
+			i += from
+			depth, j := 0, i+3
+			for ; j < len(s); j++ {
+				if s[j] == '(' || s[j] == '[' || s[j] == '{' {
+					depth++
+				} else if s[j] == ')' || s[j] == ']' || s[j] == '}' {
+					depth--
+					if depth == 0 {
+						break
+					}
+				}
+			}
+			if j >= len(s) {
+				return s
+			}
+			body := s[i+4 : j]
+			var parts []string
+			d2, st := 0, 0
+			for q := 0; q <= len(body); q++ {
+				if q == len(body) || (body[q] == '|' && d2 == 0) {
+					parts = append(parts, body[st:q])
+					st = q + 1
+					continue
+				}
+				if body[q] == '(' || body[q] == '[' || body[q] == '{' {
+					d2++
+				} else if body[q] == ')' || body[q] == ']' || body[q] == '}' {
+					d2--
+				}
+			}
+			var keep []string
+			for _, pt := range parts {
+				if pt == "nil" || strings.HasPrefix(pt, "zero:") || strings.HasPrefix(pt, "cyc:") {
+					continue
+				}
+				keep = append(keep, pt)
+			}
+			if len(keep) == 1 && len(parts) > 1 {
+				s = s[:i] + keep[0] + s[j+1:]
+				changed = true
+				break
+			}
+			from = i + 4
+		}
+		if !changed {
+			return s
+		}
+	}
+	return s
+}
+
 // Resolver computes terms for the values of one function.
 type Resolver struct {
 	P     *prog.Program
